@@ -67,8 +67,12 @@ def run_impl(c):
         return draw.reshape(size)
     kw = {}
     snr = None
+    snr_before = None
     if c["mode"] != "std":
         snr = c["snr"] if c["per"] else c["snr"][0]
+        if c["per"] and c.get("snr_array", True):
+            snr = np.array(c["snr"], dtype=float)       # the caller's own profile: must not be written to
+            snr_before = snr.copy()
         kw["snr_in_db"] = c["mode"] == "db"
     else:
         kw["std"] = c["std"]
@@ -88,6 +92,20 @@ def run_impl(c):
     finally:
         np.random.normal = orig
     out = {"ok": [float(v) for v in r], "rec": rec, "x_after": x_after}
+    if snr_before is not None:
+        out["snr_intact"] = bool(np.array_equal(snr, snr_before))
+        # the same profile used again: the second result must obey the same definition
+        rec2 = {}
+
+        def fake2(loc=0.0, scale=1.0, size=None):
+            rec2["scale"] = [float(v) for v in np.atleast_1d(scale)]
+            return draw.reshape(size)
+        np.random.normal = fake2
+        try:
+            noise_gauss(a.copy(), snr=snr, **kw)
+        finally:
+            np.random.normal = orig
+        out["scale_second_call"] = rec2.get("scale")
     if c["stat"] and c["mode"] != "std" and not c["per"]:
         big = np.tile(a, 200000 // max(1, len(a)) + 1)[:200000]
         np.random.seed(c["seed"])
@@ -145,6 +163,11 @@ def oracle(c, io):
             if abs(scales[i] - want) > 1e-9 * max(1.0, want):
                 return (f"noise std for sample {i} is {scales[i]!r}; sqrt(mean(y^2)/SNR) = {want!r} "
                         f"(snr={c['snr'][i if c['per'] else 0]}, {'dB' if c['mode'] == 'db' else 'linear'})")
+    if io.get("snr_intact") is False:
+        return "the per-sample snr array handed in by the caller was modified by noise_gauss"
+    if io.get("scale_second_call") is not None and io["scale_second_call"] != rec["scale"]:
+        return (f"a second call with the same signal and the same snr profile used a different noise std: "
+                f"{io['scale_second_call'][:3]} vs {rec['scale'][:3]}")
     st = io.get("stat")
     if st:
         if not st["repro"]:
